@@ -279,11 +279,13 @@ impl<'env, E: 'static + Send> Scope<'env, E> {
         self.cancel_guard = Arc::downgrade(&guard);
         self.terminate_guard = Arc::downgrade(guard.terminate_guard());
         let state = guard.terminate_guard().state().clone();
+        #[cfg(feature = "verif")] crate::verif::event("make", Arc::as_ptr(&state) as usize, self.ctx.verif_id());
         // Spawn the root task. We cannot run it directly in this task,
         // because if the root task panicked, we wouldn't be able to
         // wait for other tasks to finish.
         let root_task = self.spawn(root_task(&self.ctx, self));
         // Once we spawned the root task we can drop the guard.
+        #[cfg(feature = "verif")] crate::verif::event("rgd", Arc::as_ptr(&state) as usize, 0);
         drop(guard);
         // Await for the completion of the root_task.
         let root_task_result = root_task.join_raw().await;
@@ -323,11 +325,13 @@ impl<'env, E: 'static + Send> Scope<'env, E> {
         self.cancel_guard = Arc::downgrade(&guard);
         self.terminate_guard = Arc::downgrade(guard.terminate_guard());
         let state = guard.terminate_guard().state().clone();
+        #[cfg(feature = "verif")] crate::verif::event("make", Arc::as_ptr(&state) as usize, self.ctx.verif_id());
         // Spawn the root task. We cannot run it directly in this task,
         // because if the root task panicked, we wouldn't be able to
         // wait for other tasks to finish.
         let root_task = self.spawn_blocking(|| root_task(&self.ctx, self));
         // Once we spawned the root task we can drop the guard.
+        #[cfg(feature = "verif")] crate::verif::event("rgd", Arc::as_ptr(&state) as usize, 0);
         drop(guard);
         // Await for the completion of the root_task.
         let root_task_result = ctx::block_on(root_task.join_raw());
